@@ -147,6 +147,18 @@ func (p *FloatingIPPlugin) allocateIP(key string, nodeName string, pod *corev1.P
 		}
 	}
 	for _, ipInfo := range ipInfos {
+		if p.cloudProvider != nil && reservedIPs.Has(ipInfo.IP.String()) && ipInfo.NodeName != "" &&
+			ipInfo.NodeName != nodeName {
+			// a former bind of this pod to another node failed half way, the ip may still be assigned there
+			glog.Infof("UnAssignIP nodeName %s, ip %s, key %s before assigning it to %s", ipInfo.NodeName,
+				ipInfo.IPInfo.IP.IP.String(), key, nodeName)
+			if err := p.cloudProviderUnAssignIP(&rpc.UnAssignIPRequest{
+				NodeName:  ipInfo.NodeName,
+				IPAddress: ipInfo.IPInfo.IP.IP.String(),
+			}); err != nil {
+				return nil, fmt.Errorf("failed to unassign ip %s from %s: %v", ipInfo.IPInfo.IP.IP.String(), key, err)
+			}
+		}
 		glog.Infof("AssignIP nodeName %s, ip %s, key %s", nodeName, ipInfo.IPInfo.IP.IP.String(), key)
 		if err := p.cloudProviderAssignIP(&rpc.AssignIPRequest{
 			NodeName:  nodeName,
